@@ -65,6 +65,10 @@ pub enum Spelling {
 	EscapeDefault,
 	/// Debug spelling with a line continuation (`\` + newline + indentation) inserted
 	Continuation,
+	/// characters written raw, with a line continuation right in front of a character that Unicode
+	/// calls white space but that Rust does NOT skip after a continuation (U+00A0, U+3000, U+2003, ...)
+	/// when the value has one, in front of some other character otherwise
+	ContinuationRaw,
 }
 
 #[derive(Debug, Clone, Hash)]
@@ -103,6 +107,28 @@ fn render(l: &Lit) -> String {
 			let cut = if inner[..cut].contains('\\') { 0 } else { cut };
 			format!("\"{}\\\n      {}\"", &inner[..cut], &inner[cut..])
 		}
+		Spelling::ContinuationRaw => {
+			let skipped = |c: char| matches!(c, ' ' | '\t' | '\n' | '\r');
+			let chars: Vec<char> = l.value.chars().collect();
+			let cut = chars.iter().position(|c| c.is_whitespace() && !skipped(*c) && !c.is_ascii()).or_else(|| {
+				let n = chars.len();
+				(0..n).map(|j| (j + n / 2) % n.max(1)).find(|&j| j < n && !skipped(chars[j]))
+			});
+			let bidi = |c: char| matches!(c, '\u{202a}'..='\u{202e}' | '\u{2066}'..='\u{2069}');
+			let mut s = String::from("\"");
+			for (j, c) in chars.iter().enumerate() {
+				if Some(j) == cut {
+					s.push_str("\\\n \t  ");
+				}
+				if *c == '"' || *c == '\\' || (*c as u32) < 0x20 || *c == '\u{7f}' || bidi(*c) {
+					s.push_str(&c.escape_default().to_string());
+				} else {
+					s.push(*c);
+				}
+			}
+			s.push('"');
+			s
+		}
 		Spelling::AllEscapes => {
 			let mut s = String::from("\"");
 			for (i, c) in l.value.chars().enumerate() {
@@ -132,6 +158,10 @@ fn literal(mac: Mac) -> BoxedStrategy<Lit> {
 		"http://example.org/it's", "a:'", "a:('*')", "a:!$&'()*+,;=", "s:/\u{5d0}\u{200f}/b", "s:/\u{200e}", "s:/\u{202a}x\u{202c}", "s:/\u{202e}", "s:/\u{200c}\u{200d}", "s:/\u{feff}",
 		"s:/\u{ad}", "s:/\u{a0}", "s:/e\u{301}", "s:/\u{fe0f}", "s:/\u{2028}\u{2029}", "s:/\u{130}\u{df}", "s:/\u{ff0f}\u{ff1a}\u{ff03}\u{ff1f}", "s:/\u{3000}", "s://\u{ff0e}/", "s:/\u{2f}\u{338}",
 		"s:/\u{e0001}", "s:/\u{1f600}", "s:?\u{10fffd}", "s:/\u{d7ff}\u{f900}",
+		// Unicode white space that is legal IRI text
+		"http://example.org/a/\u{3000}doc", "s:/a\u{a0}b", "s:/\u{2003}x", "s:/x\u{1680}", "s:?\u{205f}", "s:#\u{202f}\u{2009}", "s:/\u{85}", "s://\u{3000}h/",
+		// self-similar values: the scheme text again as host, path or second scheme
+		"x://x://", "https://https://example.org/", "a://a:/", "a:a:", "http://http", "s://s/s?s#s", "a:a://a",
 	]
 	.iter()
 	.map(|s| s.to_string())
@@ -142,10 +172,16 @@ fn literal(mac: Mac) -> BoxedStrategy<Lit> {
 		1 => gen::reference(o, !full),
 		3 => (gen::reference(o, full), vec(gen::edit(), 1..=2)).prop_map(|(s, e)| gen::apply_edits(&s, &e)),
 		3 => select(tricky),
+		1 => (gen::scheme(), gen::reference(o, false)).prop_map(|(sc, rest)| format!("{sc}://{sc}://{rest}")),
+		1 => (any::<bool>(), select(vec!['\u{a0}', '\u{1680}', '\u{2000}', '\u{2003}', '\u{200a}', '\u{2028}', '\u{2029}', '\u{202f}', '\u{205f}', '\u{3000}', '\u{85}']), gen::reference(Opt::new(Fam::Iri), full)).prop_map(|(front, ws, r)| {
+			// a non-skipped white space character somewhere inside the path / query
+			let p = r.find('/').map(|i| i + 1).unwrap_or(r.len());
+			if front { format!("{}{ws}{}", &r[..p], &r[p..]) } else { format!("{r}{ws}x") }
+		}),
 		// any ucschar / iprivate scalar value somewhere in an otherwise plain IRI
 		1 => (any::<char>(), 0u8..3).prop_map(|(c, slot)| match slot { 0 => format!("s:/a{c}b"), 1 => format!("s://h{c}/"), _ => format!("s:?{c}") }),
 	];
-	(value, select(vec![Spelling::Debug, Spelling::Debug, Spelling::Raw, Spelling::AllEscapes, Spelling::EscapeDefault, Spelling::EscapeDefault, Spelling::Continuation])).prop_map(|(value, spelling)| Lit { value, spelling }).boxed()
+	(value, select(vec![Spelling::Debug, Spelling::Debug, Spelling::Raw, Spelling::AllEscapes, Spelling::EscapeDefault, Spelling::EscapeDefault, Spelling::Continuation, Spelling::ContinuationRaw])).prop_map(|(value, spelling)| Lit { value, spelling }).boxed()
 }
 
 fn generate(mac: Mac, n: usize, seed: u64, batch: u64) -> Vec<Lit> {
@@ -315,6 +351,7 @@ fn one_batch(mac: Mac, lits: &[Lit], out: &mut Outcome) -> Result<(), String> {
 			Spelling::AllEscapes => "spelling:all-escapes",
 			Spelling::EscapeDefault => "spelling:escape_default",
 			Spelling::Continuation => "spelling:line-continuation",
+			Spelling::ContinuationRaw => "spelling:line-continuation-raw",
 		}).or_default() += 1;
 		if out.samples.len() < 12 && (h % 7 == 0) {
 			out.samples.push(serde_json::json!({"macro": mac.name(), "literal_source": render(l), "accepted_at_compile_time": !rejected_ct, "accepted_at_run_time": exp_lib}));
@@ -446,7 +483,7 @@ pub fn run(tier: Tier, seed: u64) -> i32 {
 		for f in files {
 			if let Ok(v) = serde_json::from_str::<serde_json::Value>(&std::fs::read_to_string(&f).unwrap_or_default()) {
 				let mac = match v["macro"].as_str() { Some("uri") => Mac::Uri, Some("uri_ref") => Mac::UriRef, Some("iri") => Mac::Iri, Some("iri_ref") => Mac::IriRef, _ => continue };
-				let spelling = match v["spelling"].as_str() { Some("Raw") => Spelling::Raw, Some("AllEscapes") => Spelling::AllEscapes, Some("EscapeDefault") => Spelling::EscapeDefault, Some("Continuation") => Spelling::Continuation, _ => Spelling::Debug };
+				let spelling = match v["spelling"].as_str() { Some("Raw") => Spelling::Raw, Some("AllEscapes") => Spelling::AllEscapes, Some("EscapeDefault") => Spelling::EscapeDefault, Some("Continuation") => Spelling::Continuation, Some("ContinuationRaw") => Spelling::ContinuationRaw, _ => Spelling::Debug };
 				reg.push((mac, Lit { value: v["value"].as_str().unwrap_or("").to_string(), spelling }));
 			}
 		}
@@ -547,6 +584,7 @@ pub fn replay(path: &Path) -> i32 {
 		Some("AllEscapes") => Spelling::AllEscapes,
 		Some("EscapeDefault") => Spelling::EscapeDefault,
 		Some("Continuation") => Spelling::Continuation,
+		Some("ContinuationRaw") => Spelling::ContinuationRaw,
 		_ => Spelling::Debug,
 	};
 	if write_crate().is_err() {
